@@ -27,6 +27,9 @@ type Case struct {
 	Recs   [][]ref.Value `json:"recs"`
 	// NumExtra: the collectors' NumExtraElements setting
 	NumExtra int `json:"num_extra,omitempty"`
+	// Pad > 0: the data set ends with zero bytes of padding, fewer than the shortest possible record
+	// (RFC 7011 3.3.1)
+	Pad int `json:"pad,omitempty"`
 }
 
 var (
@@ -83,6 +86,9 @@ func runCase(c Case) *ev.Failure {
 	view := gen.View(c.Fields)
 	tm := ref.TemplateMessage(ref.Header{Domain: 9, Seq: 1}, gen.Wire(256, c.Fields))
 	dm := ref.DataMessage(ref.Header{Domain: 9, Seq: 2}, ref.Template{ID: 256, Fields: view}, c.Recs)
+	if min := ref.MinRecLen(view); c.Pad > 0 && min > 1 && len(dm)+min < 65535 {
+		dm = gen.FixLengths(append(dm, make([]byte, 1+(c.Pad-1)%(min-1))...))
+	}
 	nUnknown := 0
 	for _, f := range c.Fields {
 		if f.Unknown {
@@ -316,6 +322,9 @@ func clip(b []byte) []byte {
 func genCase(t *rapid.T) Case {
 	c := Case{Proto: rapid.SampledFrom([]string{"tcp", "udp"}).Draw(t, "proto")}
 	c.NumExtra = rapid.SampledFrom([]int{0, 0, 1, 3, 16}).Draw(t, "num_extra")
+	if rapid.IntRange(0, 2).Draw(t, "padded") == 0 {
+		c.Pad = rapid.IntRange(1, 64).Draw(t, "pad")
+	}
 	n := rapid.IntRange(1, 30).Draw(t, "nf")
 	maxVar := 700
 	switch small := rapid.IntRange(0, 15).Draw(t, "small"); {
